@@ -104,8 +104,8 @@ def queries(tier):
     if tier == 'quick':
         qs.append(mk('prune3', 3, T3, 1, 240))
     else:
-        qs.append(mk('prune3', 3, T4, 3, 1500))
-        qs.append(mk('prune4', 4, T3, 1, 1500))
+        qs.append(mk('prune3', 3, T4, 2, 1500))
+        qs.append(mk('prune4', 4, ['or', 'defense'], 1, 1500))
     n = 3
     params = [I('t%d' % i, 0, 2) for i in range(n)] + [B('v%d' % i) for i in range(n)] + \
              [B('c%d' % i) for i in range(n)] + [B('r%d' % i) for i in range(n)] + [B('ep')]
